@@ -47,3 +47,28 @@ Proof.
   repeat split; assumption.
 Qed.
 Print Assumptions edited_message_received.
+
+(* ---- byte-order conversion in front of the chain: the bytes produced by the model of
+   _dbus_header_byteswap + _dbus_marshal_byteswap from a message in one order are accepted by the loader as a
+   message in the other order, and the reader reads the same values ---- *)
+From DV Require Import Wire.Byteswap Proofs.ByteswapProofs.
+
+Theorem byteswapped_message_received m rest avail :
+  wf_msg m = true -> spec_nfds (s_fields m) <= avail ->
+  let m' := swap_order m in
+  exists b msg,
+    byteswap_message (spec_encode_message m) = Some b /\
+    load_message (negb (s_le m)) (m_flen m') (m_hlen m') (m_blen m') avail (b ++ rest) = inl msg /\
+    m_header msg ++ m_body msg = b /\
+    read_all (negb (s_le m)) (s_sig m) (m_body msg) = inl (s_body m).
+Proof.
+  intros W Hf m'.
+  pose proof (byteswap_message_correct m W) as Hb.
+  destruct (byteswap_message_decodes m _ W Hb) as (_ & Ef & Eb & Es & _ & _ & _ & Ele). fold m' in Ef, Eb, Es, Ele.
+  assert (W' : wf_msg m' = true) by (unfold m'; rewrite wf_msg_swap; exact W).
+  assert (Hf' : spec_nfds (s_fields m') <= avail) by (rewrite Ef; exact Hf).
+  destruct (writer_loader_reader m' rest avail W' Hf') as (_ & _ & msg & Hl & He & _ & Hr). cbv zeta in *.
+  exists (spec_encode_message m'), msg. rewrite Ele, ?Es, ?Eb in *.
+  repeat split; assumption.
+Qed.
+Print Assumptions byteswapped_message_received.
